@@ -147,6 +147,12 @@ def small_mesh(kind, perm=None):
     elif kind == "tri6_2":
         X = [(0, 0), (1, 0), (1, 1), (0, 1), (0.5, 0), (1, 0.5), (0.5, 1), (0, 0.5), (0.5, 0.5)]
         groups = [("TRI6", [[0, 1, 2, 4, 5, 8], [0, 2, 3, 8, 6, 7]]), ("SEG3", [[0, 1, 4], [1, 2, 5], [2, 3, 6], [3, 0, 7]]), ("POINT", [[0], [1], [2], [3]])]
+    elif kind == "quad8_1":  # one QUAD8 with curved edges (mid-side nodes off the chords): stiffness and mass rules differ and neither is exact
+        X = [(0, 0), (1, 0), (1.1, 0.9), (0, 1), (0.5, -0.05), (1.1, 0.45), (0.55, 1.0), (-0.04, 0.5)]
+        groups = [("QUAD8", [[0, 1, 2, 3, 4, 5, 6, 7]]), ("SEG3", [[0, 1, 4], [1, 2, 5], [2, 3, 6], [3, 0, 7]]), ("POINT", [[0], [1], [2], [3]])]
+    elif kind == "tri6_curved":  # two TRI6 with a curved common edge and a curved boundary edge
+        X = [(0, 0), (1, 0), (1, 1), (0, 1), (0.5, -0.06), (1.05, 0.5), (0.5, 1), (0, 0.5), (0.55, 0.45)]
+        groups = [("TRI6", [[0, 1, 2, 4, 5, 8], [0, 2, 3, 8, 6, 7]]), ("SEG3", [[0, 1, 4], [1, 2, 5], [2, 3, 6], [3, 0, 7]]), ("POINT", [[0], [1], [2], [3]])]
     elif kind == "seg3":
         X = [(0, 0), (0.4, 0), (1.0, 0), (1.7, 0)]
         groups = [("SEG2", [[0, 1], [1, 2], [2, 3]]), ("POINT", [[0], [3]])]
